@@ -198,6 +198,7 @@ struct Obs : Observer {
         }
         if (!k.has_fn && !log.recs.empty()) c.fail("C11.harness", "callback recorded for an object created without error_fn");
         if (k.expect == XP_FAIL && !k.failed) c.fail("C11.invalid_accepted", "step %d: %s with an invalid argument (%s) did not return its failure value (returned %ld)", x.step, k.fn, k.why, k.iret);
+        if (k.expect == XP_OK && k.failed) c.label(std::string("valid_failed:") + k.fn);
         if (k.expect == XP_MUST && k.failed) c.fail("C11.must_succeed_failed", "step %d: %s (%s) failed with errno %d (%s): %s", x.step, k.fn, k.why, k.err, strerror(k.err), ascii(log.text()).c_str());
         if (!k.failed) {
             // a succeeding call produced no callback other than WARNING
@@ -211,7 +212,7 @@ struct Obs : Observer {
         if (k.rk != row.rk) c.fail("C11.harness", "%s: return kind of the call differs from the contract table", k.fn);
         unsigned causes = row.causes ? (k.causes ? (k.causes & row.causes) : row.causes) : 0;
         if (row.causes && k.causes && !causes) c.fail("C11.harness", "%s: generated cause %u is not in the contract row %u", k.fn, k.causes, row.causes);
-        if (row.causes && k.causes) {
+        if (row.causes && k.causes && k.check_errno) {
             if (!errno_in_causes(k.err, causes))
                 c.fail("C11.errno_class", "step %d: %s (%s) failed with errno %d (%s), which is not in the documented class for this cause (mask %u)%s%s", x.step, k.fn, k.why, k.err, strerror(k.err), causes, last ? "; callback: " : "", last ? ascii(last->msg).c_str() : "");
         }
